@@ -5,7 +5,7 @@
    l = len_scale / rescale throughout.  Statements only; proofs in coq/c04/. *)
 From Coq Require Import Reals ZArith List.
 From Coquelicot Require Import Coquelicot.
-From GS Require Import Num Loops Formulas RInst Formulas_gen C04_Model C04_Proofs C04_Analysis C04_Tie.
+From GS Require Import Num Loops Formulas RInst Formulas_gen C04_Model C04_Proofs C04_Analysis C04_Tie C04_More.
 Import ListNotations.
 Open Scope R_scope.
 
@@ -273,3 +273,28 @@ Theorem C04_fourier_pair_exponential_1d_generated : forall ora (ls rs k : R), 0 
               (Formulas_gen.Exponential_spectral_density (Rops ora) (ls / rs) (IZR 1) k).
 Proof. exact fourier_pair_exponential_1d_gen. Qed.
 Print Assumptions C04_fourier_pair_exponential_1d_generated.
+
+(* ====================================================================== further classes / dimensions *)
+(* the 2D Matern radial pdf (translated rad_fac * translated Matern.spectral_density) integrates to one for EVERY nu > 0:
+   log-gamma branch (nu <= 20) under loggamma(nu + 1) - loggamma(nu) = ln nu (i.e. Gamma(nu+1) = nu Gamma(nu)) assumed of
+   scipy's loggamma, Gaussian-limit branch (nu > 20) unconditionally *)
+Theorem C04_matern_2d_pdf_integrates_to_one : forall ora (ls rs nu : R), 0 < ls -> 0 < rs -> 0 < nu ->
+  (nu <= 20 -> ora ORA_LOGGAMMA [nu + 2 / 2] - ora ORA_LOGGAMMA [nu] = ln nu) ->
+  is_RInt_gen (gen_pdf ora (Matern nu) 2 ls rs) (at_point 0) (Rbar_locally p_infty) 1.
+Proof. exact matern_2d_normalised. Qed.
+Print Assumptions C04_matern_2d_pdf_integrates_to_one.
+Theorem C04_matern_loggamma_hypothesis_satisfiable : forall nu, exists ora : nat -> list R -> R,
+  ora ORA_LOGGAMMA [nu + 2 / 2] - ora ORA_LOGGAMMA [nu] = ln nu.
+Proof. exact matern_loggamma_hyp_satisfiable. Qed.
+Print Assumptions C04_matern_loggamma_hypothesis_satisfiable.
+
+(* Fourier pair, Exponential model, d = 3, with the translated cor and the translated spectral_density:
+   1/(2 pi^2 k) int_0^oo exp(-(r/l)) r sin(k r) dr = spectral_density(k) for every k <> 0 (radial form of the 3D
+   transform of a radial function, taken as its definition; Gamma(2) = 1 assumed of scipy's gamma) *)
+Theorem C04_fourier_pair_exponential_3d_generated : forall ora (ls rs k : R), 0 < ls -> 0 < rs -> k <> 0 ->
+  ora ORA_GAMMA [2] = 1 ->
+  is_RInt_gen (fun r => / (2 * (PI * PI) * k) * (Formulas_gen.Exponential_cor (Rops ora) (r / (ls / rs)) * r * sin (k * r)))
+              (at_point 0) (Rbar_locally p_infty)
+              (Formulas_gen.Exponential_spectral_density (Rops ora) (ls / rs) (IZR 3) k).
+Proof. exact fourier_pair_exponential_3d_gen. Qed.
+Print Assumptions C04_fourier_pair_exponential_3d_generated.
